@@ -1,11 +1,12 @@
 package main
 
 import (
-	"io"
 	"bufio"
 	"bytes"
+	"context"
 	"encoding/hex"
 	"fmt"
+	"io"
 
 	"go.einride.tech/xsens"
 )
@@ -237,6 +238,27 @@ func scanTokensFragmented(c *ctx, f []byte) [][]byte {
 			return toks
 		}
 	}
+	// through the client (its own bufio.Scanner set-up): Receive must deliver the same frame; a receive error ends the list
+	for _, sch := range [][]int{nil, {4096, 4096}} {
+		cl := xsens.NewClient(&scriptedPort{r: &chunkReader{data: append([]byte(nil), f...), sched: append([]int(nil), sch...), final: io.EOF}})
+		var toks [][]byte
+		for i := 0; i < len(whole)+2; i++ {
+			var err error
+			if p, _ := protect(func() { err = cl.Receive(context.Background()) }); p {
+				break
+			}
+			raw := cl.RawMessage()
+			if raw == nil {
+				break
+			}
+			_ = err // a rejected frame is still the scanner's token
+			toks = append(toks, append([]byte(nil), raw...))
+		}
+		if !same(toks, whole) {
+			c.count("client-delivery-differs")
+			return toks
+		}
+	}
 	// the same frame twice: the second header split after its preamble, when the first frame has been consumed
 	if len(f) <= 600 {
 		two := append(append([]byte(nil), f...), f...)
@@ -385,6 +407,13 @@ func init() {
 		emit(0x42, []byte{1, 2})
 		emit(0x43, []byte{1})
 		emit(0x42, c.payload(255))
+	}
+
+	// (C06 continues) as the client reads frames: the command loop must treat a frame as a device error exactly when it is one
+	c06frames := props["C06"]
+	props["C06"] = func(c *ctx) {
+		c06frames(c)
+		c.commandCases("client", c.pick(40, 300))
 	}
 
 	props["C07"] = func(c *ctx) {
